@@ -1,5 +1,6 @@
 #!/bin/sh
-# Confirms sub-agent deliverables: usage confirm_seed.sh <ID>...   (results in /tmp/confirm/<ID>.result)
+# Confirms sub-agent deliverables: usage SEED_SRC=/tmp/seed2keep confirm_seed.sh <ID>...   (results in /tmp/confirm/<ID>.result)
+# SEED_SRC/<ID>/{demo.diff,break.diff} (default: /tmp/seed/<ID>/out)
 # For each ID: scratch worktree of /repo HEAD; (1) demo.diff only -> whole suite passes (incl. demo tests);
 # (2) demo.diff + break.diff -> only the demo tests fail, the 115 baseline tests pass.
 mkdir -p /tmp/confirm
@@ -8,8 +9,9 @@ export TMPDIR=/tmp/confirm/tmp
 mkdir -p $TMPDIR
 [ -d $CARGO_TARGET_DIR ] || cp -a /repo/target $CARGO_TARGET_DIR
 for ID in "$@"; do
-  EXTRA=""; [ "$ID" = "C17" ] && EXTRA="--features verif"
-  OUT=/tmp/seed/$ID/out
+  OUT=${SEED_SRC:+$SEED_SRC/$ID}; OUT=${OUT:-/tmp/seed/$ID/out}
+  EXTRA=""; grep -q "feature = \"verif\"" $OUT/demo.diff 2>/dev/null && EXTRA="--features verif"; [ "$ID" = "C17" ] && EXTRA="--features verif"
+  OUT=${SEED_SRC:+$SEED_SRC/$ID}; OUT=${OUT:-/tmp/seed/$ID/out}
   WT=/tmp/confirm/wt-$ID
   git -C /repo worktree remove --force $WT 2>/dev/null
   git -C /repo worktree add --detach $WT HEAD -q || { echo "$ID worktree failed" > /tmp/confirm/$ID.result; continue; }
@@ -17,11 +19,11 @@ for ID in "$@"; do
   R=/tmp/confirm/$ID.result; : > $R
   if ! git apply $OUT/demo.diff 2>>$R; then echo "demo.diff does not apply" >> $R; cd /; git -C /repo worktree remove --force $WT; continue; fi
   cargo test --workspace --no-fail-fast --offline $EXTRA > /tmp/confirm/$ID.demo.log 2>&1
-  rm -rf $TMPDIR; mkdir -p $TMPDIR
+  find $TMPDIR -mindepth 1 -delete 2>/dev/null
   echo "DEMO-ONLY: $(grep -E '^test result' /tmp/confirm/$ID.demo.log | head -1)" >> $R
   if ! git apply $OUT/break.diff 2>>$R; then echo "break.diff does not apply" >> $R; cd /; git -C /repo worktree remove --force $WT; continue; fi
   cargo test --workspace --no-fail-fast --offline $EXTRA > /tmp/confirm/$ID.both.log 2>&1
-  rm -rf $TMPDIR; mkdir -p $TMPDIR
+  find $TMPDIR -mindepth 1 -delete 2>/dev/null
   echo "DEMO+BREAK: $(grep -E '^test result' /tmp/confirm/$ID.both.log | head -1)" >> $R
   echo "FAILED TESTS:" >> $R
   grep -E '^test .* FAILED' /tmp/confirm/$ID.both.log >> $R
